@@ -45,3 +45,7 @@ import NbioVerif.Lemmas.SrcBridgeConn
 #print axioms ConnFull.fileRange_eq
 #print axioms ConnFull.foldPending_eq
 #print axioms ConnFull.pending_length
+#print axioms ConnFull.step_reported_ex
+#print axioms ConnFull.closed_tail
+#print axioms ConnFull.run_reported_ex
+#print axioms ConnFull.c01_wire_prefix_of_reported
